@@ -71,6 +71,10 @@ def run_case(case):
     if ok.kind != "tree":
         finding("keep-reject:" + util.outcome_signature(ok), "source rejected with comments kept: %s" % str(ok.exc)[:200])
         return res
+    if case["seed"] % 2 == 0:
+        fs, info = util.block_cosim(src, std=std, ignore_comments=False, case=case)
+        res["findings"] += fs
+        res["counts"]["block-cosim"] = 1
     seq = []
     for n in treeutil.statement_nodes(ok.tree):
         nm = type(n).__name__
